@@ -14,7 +14,7 @@ Theorem C05_self_rewrite_is_model_cycle : forall fuel r path s e,
   edge_at (ws_g s) r = Some e -> e_from e = e_to e -> e_type e = EComputed \/ e_type e = ERewrite ->
   snd (fst (calc_edge (S fuel) r path s)) = Some WModelCycle.
 Proof.
-  intros fuel r path s e He Hself Hk. cbn [calc_edge]. rewrite He, Hself, str_eqb_refl.
+  intros fuel r path s e He Hself Hk. cbn [calc_edge]. unfold calc_edge_body. rewrite He, Hself, str_eqb_refl.
   destruct Hk as [-> | ->]; reflexivity.
 Qed.
 
